@@ -1,6 +1,6 @@
 #!/usr/bin/env python3
-"""Apply every seeded change to /repo in turn, run all quick checks, undo it; write seeded/<id>/meta.json
-(caught_by) and seeded/MATRIX.md.  /repo must be clean."""
+"""Apply every seeded change to a scratch export of /repo HEAD in turn (ZCSA_REPO points the analyser at the copy;
+/repo itself is not touched), run all quick checks; write seeded/<id>/meta.json (caught_by) and seeded/MATRIX.md."""
 import json, os, subprocess, sys, re
 SEEDS = {
  'c01-stale-room-manual': ('C01', 'manual chunking with a write that ends exactly at ZCK_CHUNK_MAX followed by another write: zck_write() never returns (e.g. zck -m on > 10 MiB)'),
@@ -23,14 +23,23 @@ SEEDS = {
  'c18-sha256-exact-block': ('C18', 'bundled build, SHA-256, an update call that exactly fills the 64-byte block as the last update'),
  'c19-static-hdr-regex': ('C19', 'the first header callback of the process issued from two threads at once'),
  'c20-int-shift': ('C20', 'decoding any value >= 2^31 (e.g. a 2 GiB chunk size)'),
+ 'c01r2-header-realloc': ('C01', 'overall checksum type SHA-512/128 (lead shorter than the 25 bytes read ahead) and a non-zero data digest: the written file no longer opens'),
+ 'c02r2-nocomp-dict-skip': ('C02', 'compression type none together with a non-empty dictionary: the reader delivers dictionary + content with success'),
+ 'c03r2-uncomp-lookup-null': ('C03', 'zck_find_matching_chunks with a source that has the uncompressed-source flag, a target that has not, and different compression types: NULL key hashed'),
+ 'c05r2-reset-keeps-window': ('C05', 'a transfer that ends inside a chunk, then zck_dl_reset() and a new complete response on the same zckDL'),
+ 'c08r2-zero-uncompressed-length': ('C08', 'a corrupted matching source chunk in a compressed target whose following chunks are already valid: zero fill runs over the neighbours'),
+ 'c10r2-resume-point': ('C10', 'a chunk fails verification, a later chunk is fetched, failed chunks are reset: the failed chunk lies before the remembered resume point and is never requested again'),
+ 'c12r2-error-downgrade': ('C12', 'write() on the temp file fails while a chunk is flushed; the application clears the (now non-fatal) error and closes: success with a chunk missing'),
+ 'c13r2-optelem-wrap': ('C13', 'optional element size in [2^64 - length, 2^64 - 1] with the header re-sealed: the cursor moves backwards and metadata is read from other fields'),
+ 'c16r2-empty-flush': ('C16', 'uncompressed-source flag and a boundary candidate on the first byte of a write call: that segmentation fails while others succeed'),
+ 'c17r2-carryover-free': ('C17', 'a multipart part header spread over three or more write callbacks: carried-over buffer freed and used again'),
 }
 PROPS = ['C%02d' % i for i in range(1, 21)]
 def sh(cmd, **kw):
     return subprocess.run(cmd, shell=True, stdout=subprocess.PIPE, stderr=subprocess.STDOUT, **kw).stdout.decode()
 only = sys.argv[1:]
 rows = []
-if sh('git -C /repo status --porcelain').strip():
-    sys.exit('/repo not clean')
+import tempfile, shutil
 for sid in sorted(SEEDS):
     prop, needs = SEEDS[sid]
     d = '/verif/seeded/' + sid
@@ -39,30 +48,32 @@ for sid in sorted(SEEDS):
         rows.append(json.load(open(meta_p))); continue
     if not os.path.exists(d + '/patch.diff'):
         continue
-    out = sh('git -C /repo apply %s/patch.diff' % d)
+    T = tempfile.mkdtemp(prefix='zcsa-matrix-')
+    sh('git -C /repo archive HEAD src include meson.build meson_options.txt zchunk_format.txt | tar -x -C %s' % T)
+    out = sh('cd %s && patch -p1 -s < %s/patch.diff' % (T, d))
     if out.strip():
-        print(sid, 'DOES NOT APPLY', out); continue
+        print(sid, 'DOES NOT APPLY', out); shutil.rmtree(T); continue
     caught, broken, details = [], [], {}
-    env = dict(os.environ, ZCSA_OUTDIR='/tmp/seedwork/matrix-out')
+    env = dict(os.environ, ZCSA_REPO=T, ZCSA_OUTDIR=T + '/_out')
     for p in PROPS:
         o = subprocess.run(['python3', '-m', 'zcsa', 'check', p, '--tier', 'quick'], cwd='/verif', env=env,
                            stdout=subprocess.PIPE, stderr=subprocess.STDOUT).stdout.decode()
         if 'VIOLATION property=' in o:
             caught.append(p)
-            details[p] = [l[:200] for l in o.splitlines() if l.startswith('FINDING')][:4]
+            details[p] = [l[:200].replace(T + '/', '') for l in o.splitlines() if l.startswith('FINDING')][:4]
         elif 'ANALYSIS-BROKEN' in o:
             broken.append(p)
-    sh('git -C /repo checkout -- .')
+    shutil.rmtree(T)
     meta = {'seed': sid, 'breaks_property': prop, 'needs_to_manifest': needs,
             'base_commit': sh('git -C /repo rev-parse --short HEAD').strip(),
             'confirmed': 'suite 37 ok with the change; demonstration (run.sh) exits non-zero with the change and 0 on the clean tree (see confirm.log)',
             'what_was_run': ['tools/seed_confirm.sh (in the sub-agent\'s scratch worktree)', 'tools/seed_rebase.sh when a fix: commit touched the same lines',
-                             'tools/seed_matrix.py: git -C /repo apply patch.diff; python3 -m zcsa check Cnn --tier quick for all 20; git -C /repo checkout -- .'],
+                             'tools/seed_matrix.py: patch applied to a scratch export of /repo HEAD, python3 -m zcsa check Cnn --tier quick for all 20 with ZCSA_REPO pointing at it (equivalent to git -C /repo apply; run; git -C /repo checkout -- .)'],
             'caught_by': caught, 'analysis_broken': broken, 'findings': details,
             'caught_by_own_property': prop in caught}
     json.dump(meta, open(meta_p, 'w'), indent=1)
     rows.append(meta)
-    print(sid, 'caught by', caught, 'broken', broken)
+    print(sid, 'caught by', caught, 'broken', broken, flush=True)
 with open('/verif/seeded/MATRIX.md', 'w') as f:
     f.write('# Seeded changes vs checks (generated by tools/seed_matrix.py)\n\n| seed | property | caught by (VIOLATION) | analysis-broken | own property check fires |\n|---|---|---|---|---|\n')
     for m in rows:
